@@ -538,6 +538,10 @@ def run(prog, rep, tier):
         raise AnalysisError('MPS-bond-coverage: MPS.add not found')
     check_sticky_flags(prog, rep)
     check_errflow_c09(prog, rep)
+    rep.rule('MPS-permute-direction', 'permute_sites moves site i to perm[i] (read off the '
+             'sorting loop); docstring and callers that gather a companion list agree with it')
+    if check_permute_direction(prog, rep) < 2:
+        raise AnalysisError('MPS-permute-direction: the call in from_product_mps_covering was not found')
     rep.floor('MPS-coupled-order', 8)
     rep.floor('MPS-form-flow', 4)
     rep.assumptions += ['that the transformed state equals the dense image is NOT decided']
@@ -546,3 +550,80 @@ def run(prog, rep, tier):
         explanation='Coupled-update order of the per-site lists (%d transformation functions), '
         'canonical-form flows, bond-list re-indexing, sided-family coherence and error flow of the '
         'MPS transformations decided on the current source of mps.py.' % n)
+
+
+# ------------------------------------------------------------------ MPS-permute-direction
+def check_permute_direction(prog, rep):
+    """MPS-permute-direction. (1) permute_sites sorts its permutation ascending by adjacent swaps
+    and swaps the sites along: site i ends at perm[i] ("scatter"); the docstring must state that
+    map. (2) a caller that re-orders a companion list by GATHERING with a permutation A
+    (`[L[i] for i in A]`, `L[A]`) must hand permute_sites the inverse of A."""
+    m = prog.module(MPS)
+    f = m.functions.get('MPS.permute_sites')
+    if f is None:
+        raise AnalysisError('MPS.permute_sites not found')
+    pname = params(f)[1]
+    nf = inline_temps(f)
+    # (1) direction from the algorithm
+    swaps = [c for c in body_nodes(nf) if isinstance(c, ast.Call) and isinstance(
+        c.func, ast.Attribute) and c.func.attr == 'swap_sites' and unparse(c.func.value) == 'self']
+    scatter = False
+    for c in swaps:
+        i = unparse(c.args[0]) if c.args else None
+        for text, pol, e in guards_of(nf, c):
+            if pol and pmatch(P('%s[%s] > %s[%s + 1]' % (pname, i, pname, i)), e):
+                scatter = True
+    doc = ast.get_docstring(f) or ''
+    says_scatter = re.search(r'permute_sites\(%s\)\[%s\[i\]\]\s*=\s*psi\[i\]' % (pname, pname), doc)
+    says_gather = re.search(r'permute_sites\(%s\)\[i\]\s*=\s*psi\[%s\[i\]\]' % (pname, pname), doc)
+    rep.instance('MPS-permute-direction', {'function': 'MPS.permute_sites',
+                                           'algorithm_moves_site_i_to_perm_i': scatter,
+                                           'docstring': 'scatter' if says_scatter else
+                                           'gather' if says_gather else 'none'})
+    if not scatter:
+        raise AnalysisError('MPS.permute_sites: the sorting loop (swap when perm[i] > perm[i+1]) '
+                            'was not recognised')
+    if says_gather and not says_scatter:
+        rep.violation('MPS-permute-direction', m, 'MPS.permute_sites', 'doc-inverse',
+                      'the loop sorts `%s` ascending and swaps the sites along, so site i ends '
+                      'at %s[i]; the docstring states the inverse map (new[i] = old[%s[i]]): '
+                      'callers written against the documentation place sites wrongly for every '
+                      'permutation that is not an involution' % (pname, pname, pname), f.lineno)
+    # (2) call sites in mps.py
+    n = 1
+    for q, g in m.functions.items():
+        for c in body_nodes(g):
+            if not (isinstance(c, ast.Call) and isinstance(c.func, ast.Attribute) and
+                    c.func.attr == 'permute_sites' and c.args):
+                continue
+            arg = c.args[0]
+            inv = isinstance(arg, ast.Call) and call_name(arg) == 'inverse_permutation'
+            base = arg.args[0] if inv and arg.args else arg
+            if not isinstance(base, ast.Name):
+                continue
+            A = base.id
+            gathers = []
+            for x in ast.walk(g):
+                if isinstance(x, ast.ListComp) and len(x.generators) == 1 and isinstance(
+                        x.generators[0].iter, ast.Name) and x.generators[0].iter.id == A and \
+                        isinstance(x.elt, ast.Subscript) and isinstance(
+                            x.generators[0].target, ast.Name) and \
+                        unparse(x.elt.slice) == x.generators[0].target.id:
+                    gathers.append(x)
+                if isinstance(x, ast.Subscript) and isinstance(x.slice, ast.Name) and \
+                        x.slice.id == A and isinstance(x.ctx, ast.Load):
+                    gathers.append(x)
+            if not gathers:
+                continue
+            n += 1
+            rep.instance('MPS-permute-direction', {'function': q, 'call': unparse(c)[:70],
+                                                   'companion': unparse(gathers[0])[:60],
+                                                   'inverse_passed': inv})
+            if not inv:
+                rep.violation('MPS-permute-direction', m, q, 'gather-vs-scatter:' + A,
+                              '`%s` re-orders the companion list by gathering with `%s` (new[j] '
+                              '= old[%s[j]]) but `%s` moves site j to %s[j]: the tensors and the '
+                              'companion list disagree unless the permutation is an involution; '
+                              'pass inverse_permutation(%s)' %
+                              (unparse(gathers[0])[:60], A, A, unparse(c)[:50], A, A), c.lineno)
+    return n
